@@ -150,9 +150,88 @@ def gen_growth_exact_ratio(rng):
     return finish_mem(rng, sc)
 
 
+# decimals that are not binary fractions (nearest float above or below the decimal), all < 4
+NONDYADIC = ["1.1", "1.4", "1.6", "1.15", "2.2", "1.3", "1.7", "1.9", "0.7", "1.05", "1.2", "1.35", "2.6", "3.3", "0.9",
+             "1.45", "1.55", "1.01", "1.33", "2.9", "0.3", "1.8", "1.65", "3.1", "1.125", "1.375", "1.0625"]
+
+
+def exact_pair(ratio, k):
+    """(first, second) usages of a two-tick history whose moving average is exactly second / ratio:
+    ratio = m / 10^e < 4; second = 3mk, average = 3 * 10^e * k, first = 4k(4 * 10^e - m)"""
+    ip, _, fp = ratio.partition(".")
+    e = len(fp)
+    m = int(ip + fp)
+    return 4 * k * (4 * 10 ** e - m), 3 * m * k, 3 * 10 ** e * k
+
+
+def gen_growth_boundary(rng):
+    """a sibling whose usage / moving average equals a non-dyadic min_growth_ratio exactly (or misses it by one
+    byte); nobody is size-eligible, the boundary sibling is inside the percentile cut and is not the largest"""
+    n = rng.choice([2, 3, 3, 4, 5])
+    sc = base(rng, "kill_by_memory_size_or_growth", n=n)
+    for s in sc["sibs"]:
+        s.pop("target", None)
+    sc["nticks"] = 2
+    ratio = rng.choice(NONDYADIC if rng.random() < 0.85 else [r for r, _, _ in EXACT_RATIO])
+    k = rng.choice([1, 2, 4, 10, 100, rng.randint(1, 5000)])
+    first, second, avg = exact_pair(ratio, k)
+    delta = rng.choice([0, 0, 0, 0, 0, 0, -1, 1])
+    pctl = rng.choice([0, 0, 1, 10, 30, 50])
+    sc["args"] = {"min_growth_ratio": ratio, "size_threshold": str(rng.choice([100, 100, 150, 200, 60 if n >= 4 else 100])),
+                  "growing_size_percentile": str(pctl)}
+    sibs = sc["sibs"]
+    sibs[0]["ticks"] = [{"cur": str(first), "min": "0", "low": "0"}, {"cur": str(second + delta), "min": "0", "low": "0"}]
+    # a larger sibling that shrinks (growth < 1 unless ratio is tiny), so the fallback phase would pick it
+    big2 = second + rng.randint(1, max(2, second // 4))
+    sibs[1]["ticks"] = [{"cur": str(big2 * rng.choice([5, 8, 16])), "min": "0", "low": "0"}, {"cur": str(big2), "min": "0", "low": "0"}]
+    for s in sibs[2:]:
+        r = rng.random()
+        if r < 0.5:      # small and shrinking
+            c = rng.randint(1, max(1, second // 2))
+            s["ticks"] = [{"cur": str(c * rng.choice([2, 5, 10])), "min": "0", "low": "0"}, {"cur": str(c), "min": "0", "low": "0"}]
+        elif r < 0.75:   # another one exactly on / next to the ratio, smaller
+            k2 = rng.randint(1, max(1, k))
+            f2, s2, _ = exact_pair(ratio, k2)
+            s["ticks"] = [{"cur": str(f2), "min": "0", "low": "0"}, {"cur": str(s2 + rng.choice([0, -1, 1])), "min": "0", "low": "0"}]
+        else:
+            c = rng.randint(1, big2)
+            s["ticks"] = [{"cur": str(c), "min": "0", "low": "0"}]
+    if rng.random() < 0.5:
+        rng.shuffle(sibs)
+    return finish_mem(rng, sc)
+
+
+def gen_growth_size_boundary(rng):
+    """size_threshold % of a total that is not a multiple of 100: usages floor / ceil of the exact threshold"""
+    n = rng.choice([2, 3, 4])
+    sc = base(rng, "kill_by_memory_size_or_growth", n=n)
+    for s in sc["sibs"]:
+        s.pop("target", None)
+    thr = rng.choice([1, 3, 7, 10, 29, 33, 50, 50, 57, 66, 75, 99])
+    total = rng.choice([101, 1001, 4097, rng.randint(100, 1 << 30), rng.randint(1 << 31, 1 << 45)])
+    t_floor = total * thr // 100
+    c0 = min(total, max(0, t_floor + rng.choice([0, 1, 1, -1, 2])))
+    rest = total - c0
+    cuts = sorted(rng.randint(0, rest) for _ in range(n - 2))
+    parts = [b - a for a, b in zip([0] + cuts, cuts + [rest])]
+    sc["args"] = {"size_threshold": str(thr), "min_growth_ratio": rng.choice(["1.25", "100"]),
+                  "growing_size_percentile": str(rng.choice([0, 50, 80]))}
+    for s, c in zip(sc["sibs"], [c0] + parts):
+        mn, lo = ("0", "0") if rng.random() < 0.7 else prot_fields(rng, c)
+        s["ticks"] = [{"cur": str(c), "min": mn, "low": lo}]
+    if rng.random() < 0.5:
+        rng.shuffle(sc["sibs"])
+    return finish_mem(rng, sc)
+
+
 def gen_growth(rng):
-    if rng.random() < 0.15:
+    r = rng.random()
+    if r < 0.12:
         return gen_growth_exact_ratio(rng)
+    if r < 0.3:
+        return gen_growth_boundary(rng)
+    if r < 0.36:
+        return gen_growth_size_boundary(rng)
     sc = base(rng, "kill_by_memory_size_or_growth")
     n = len(sc["sibs"])
     nt = rng.choice([1, 2, 2, 3, 4, 5])
@@ -311,7 +390,22 @@ def psi(rng):
     return "%d.%02d" % (rng.choice([0, 1, 9, 10, 10, 33, 50, 99]), rng.choice([0, 1, 10, 49, 50, 51, 90, 99]))
 
 
+def gen_pressure_close(rng):
+    """means that differ by exactly 0.005 (or tie) at values that are not binary fractions"""
+    sc = base(rng, "kill_by_pressure", n=rng.choice([2, 3, 4]))
+    sc["args"]["resource"] = rng.choice(["memory", "io"])
+    b = rng.randint(0, 9990)                       # hundredths
+    for s in sc["sibs"]:
+        a10 = max(0, min(10000, b + rng.choice([-5, 0, 0, 5, 1, -1, 10])))
+        a60 = max(0, min(10000, 2 * b - a10 + rng.choice([0, 0, 1, -1])))
+        v10, v60 = "%d.%02d" % divmod(a10, 100), "%d.%02d" % divmod(a60, 100)
+        s["ticks"] = [{"mp10": v10, "mp60": v60, "ip10": v10, "ip60": v60, "cur": str(size(rng, 1 << 40))}]
+    return finish_mem(rng, sc)
+
+
 def gen_pressure(rng):
+    if rng.random() < 0.2:
+        return gen_pressure_close(rng)
     sc = base(rng, "kill_by_pressure")
     sc["args"]["resource"] = rng.choice(["memory", "io"])
     shared = psi(rng), psi(rng)
